@@ -1,5 +1,7 @@
 import Yuiv.Proofs.C18
 import Yuiv.Proofs.C18Orbit
+import Yuiv.Proofs.C18Check
+import Yuiv.Proofs.C18Closure
 /-
 C18 — link diagrams: components, signs, resolutions and braid closures.
 
@@ -125,6 +127,32 @@ example : traverse (fromPD [[0,0,1,1]]) (0, 0) = .ok [(0,0),(0,3),(0,0)] := by d
 /-- the bound is sharp for malformed codes: a label occurring three times makes the walk panic -/
 example : traverse (fromPD [[1,2,1,1]]) (0, 1) = .panic := by decide
 
+/-! ### E. verified checker for component lists
+
+`checkComps l comps` is evaluated by the driver on the component list of every compared case (`L`, `C` lines,
+every resolution state of the `R` lines, the Seifert resolution), and the component lists of the real code
+are compared with the model's; so the statement below applies to the outputs of the real code on all
+generated inputs.  `Conn l` is the equivalence generated by `joined l e e'` = "e and e' are the labels at
+the two ends of a strand through some crossing" (`joined_spec`); for a fully resolved diagram this is the
+edge-identification relation, so the number of circles is the number of its classes. -/
+
+theorem joined_spec (l : Link) (e e' : Nat) :
+    joined l e e' = true ↔ ∃ c ∈ l, ∃ j, j < 4 ∧ c.edge j = e ∧ c.edge (c.ctype.pass j) = e' :=
+  joined_iff l e e'
+
+/-- an accepted component list is a partition of the edge set into the classes of `Conn`:
+every label lies in exactly one component and is listed once; every component is closed, non-empty and
+is exactly the `Conn`-class of each of its labels -/
+theorem checkComps_sound (l : Link) (comps : List Path) (h : checkComps l comps = true) :
+    (∀ e, e ∈ allEdges l ↔ ∃ p ∈ comps, e ∈ p.edges) ∧
+    (comps.flatMap (·.edges)).Nodup ∧
+    (∀ p ∈ comps, p.closed = true ∧ p.edges ≠ [] ∧ ∀ e ∈ p.edges, ∀ e', Conn l e e' ↔ e' ∈ p.edges) :=
+  checkComps_sound' l comps h
+
+example : (components (fromPD [[4,1,3,2],[2,3,1,4]])).isOk = true ∧
+    (match components (fromPD [[4,1,3,2],[2,3,1,4]]) with | .ok cs => checkComps (fromPD [[4,1,3,2],[2,3,1,4]]) cs | _ => false) = true := by
+  decide
+
 /-! ### C. braid closure -/
 
 /-- the closure of a word of length `n` has `n` crossings (all of type `X`) and `4n` slots -/
@@ -146,6 +174,18 @@ theorem closure_counts (strands : Nat) (w : List Int) (l : Link) (h : closure st
         (l.filter ((fun c => !Crossing.isResolved c) ∘ fun x => Crossing.ofPD x.1 x.2.1 x.2.2.1 x.2.2.2)) = l := by
       intro l; apply List.filter_eq_self.2; intro x _; rfl
     rw [this, hl]
+
+/-- the closure of a braid word (whenever `closure` returns, i.e. every strand is used and every letter is in
+range) is a valid PD code: every label occurs in exactly two slots.  Together with `closure_counts` (4n slots)
+the closure uses 2n labels. -/
+theorem closure_valid (strands : Nat) (w : List Int) (l : Link) (h : closure strands w = .ok l) : Valid l :=
+  closure_valid' strands w l h
+
+/-- hence no walk on a braid closure can hit the `4·n` bound -/
+theorem closure_traverse (strands : Nat) (w : List Int) (l : Link) (h : closure strands w = .ok l)
+    (s : Nat × Nat) (hs : HE l s) : ∃ path, traverse l s = .ok path :=
+  let ⟨v, hv, _⟩ := traverse_orbit l (closure_valid strands w l h) s hs
+  ⟨_, hv⟩
 
 example : closure 2 [1, 1, 1] = .ok (fromPD [[0,2,3,1],[2,4,5,3],[4,0,1,5]]) := by decide
 
